@@ -44,6 +44,7 @@ func init() {
 			{ID: "R15w", Floor: 1, Doc: "traversalCar.WriteV2Header pads up to DataOffset: the zero bytes behind the header number DataOffset minus the pragma and the header just written", Run: ruleR15w},
 			{ID: "R15x", Floor: 1, Doc: "no new mutable package-level state: the link system a traversal runs on is the traversal's own — one kept in a package-level variable and given this traversal's loader is shared by every traversal in the process (= R13k)", Run: ruleR13k},
 			{ID: "R15y", Floor: 1, Doc: "every DAG the selective car was given is walked: in selectiveCarTraverser.traverseBlocks no path through the body of the loop over the DAGs reaches the next round without passing the traversal (Progress.WalkAdv) — a DAG skipped because its root is already in the car loses what its own selector reaches below that root", Run: ruleR15y},
+			{ID: "R15z", Floor: 1, Doc: "the two passes of a selective car run under the same options: nothing assigns a field of the options (v2 Options, the root module's options) outside ApplyOptions/applyOptions and the option constructors — a measuring pass that visits links once while the writing pass does not announces another size than is written (= R04j)", Run: ruleR04j},
 			{ID: "R15c", Floor: 1, Doc: "size-mismatch guard", Run: ruleR15c},
 			{ID: "R15i", Floor: 8, Doc: "the announced section size and the written framing come from the same length formula (= R01b)", Run: ruleR01b},
 		},
@@ -909,6 +910,9 @@ func ruleR15k(c *Ctx, r *Report) {
 				if o.Kind == "const" {
 					continue
 				}
+				if o.Kind == "call" && o.Fn != nil && returnsFreshOrNil(c, o.Fn) {
+					continue // a constructor of the repository: every call hands out a new one
+				}
 				bad = fmt.Sprintf("the budget comes from %s, not from an allocation made for this walk: a second pass starts with what the first one left", o.Kind)
 			}
 			r.Check(bad == "", key, c.Pos(st.Pos()), "allocated for this walk", bad)
@@ -1029,14 +1033,23 @@ func ruleR15y(c *Ctx, r *Report) {
 		r.Undec(key, c.Pos(fn.Pos()), fmt.Sprintf("expected one Progress.WalkAdv call in traverseBlocks, found %d", nWalk))
 		return
 	}
-	wb := walk.Block()
-	// the loop the walk stands in: the nearest dominator of its block that is the target of a back edge and that its block reaches again
+	head, again, nBlocks := roundWithout(walk)
+	if head == nil {
+		r.Undec(key, c.Pos(walk.Pos()), "the traversal does not stand in a loop: how the DAGs are enumerated is not recognised")
+		return
+	}
+	r.Count("blocks of the loop over the DAGs", nBlocks)
+	r.Check(!again, key, c.Pos(walk.Pos()), "every round of the loop over the DAGs passes the traversal or leaves the function", "a round of the loop over the DAGs can reach the next round without the traversal (a `continue` in front of Progress.WalkAdv): a DAG is skipped — what its selector reaches is not in the car although the DAG was asked for")
+}
+
+// roundWithout: the innermost loop the instruction stands in (head: the nearest dominator of its
+// block that is the target of a back edge and that its block reaches again), and whether a round of
+// that loop can reach the next round without passing the instruction's block.
+func roundWithout(at ssa.Instruction) (head *ssa.BasicBlock, skips bool, loopBlocks int) {
+	wb := at.Block()
 	fwd := func(from *ssa.BasicBlock, without *ssa.BasicBlock) map[*ssa.BasicBlock]bool {
 		seen := map[*ssa.BasicBlock]bool{}
-		var st []*ssa.BasicBlock
-		for _, s := range from.Succs {
-			st = append(st, s)
-		}
+		st := append([]*ssa.BasicBlock(nil), from.Succs...)
 		for len(st) > 0 {
 			b := st[len(st)-1]
 			st = st[:len(st)-1]
@@ -1049,7 +1062,6 @@ func ruleR15y(c *Ctx, r *Report) {
 		return seen
 	}
 	after := fwd(wb, nil)
-	var head *ssa.BasicBlock
 	for d := wb.Idom(); d != nil; d = d.Idom() {
 		back := false
 		for _, p := range d.Preds {
@@ -1063,11 +1075,40 @@ func ruleR15y(c *Ctx, r *Report) {
 		}
 	}
 	if head == nil {
-		r.Undec(key, c.Pos(walk.Pos()), "the traversal does not stand in a loop: how the DAGs are enumerated is not recognised")
-		return
+		return nil, false, 0
 	}
-	// from the loop head, without passing the walk's block, the head must not be reached again
-	r.Count("blocks of the loop over the DAGs", len(after))
-	again := fwd(head, wb)
-	r.Check(!again[head], key, c.Pos(walk.Pos()), "every round of the loop over the DAGs passes the traversal or leaves the function", "a round of the loop over the DAGs can reach the next round without the traversal (a `continue` in front of Progress.WalkAdv): a DAG is skipped — what its selector reaches is not in the car although the DAG was asked for")
+	return head, fwd(head, wb)[head], len(after)
+}
+
+// returnsFreshOrNil: a repository function whose every return hands out an object allocated in
+// that very call, or nil.
+func returnsFreshOrNil(c *Ctx, f *types.Func) bool {
+	if f.Pkg() == nil || !isRepoPkg(f.Pkg().Path()) {
+		return false
+	}
+	fn := c.Prog.FuncValue(f)
+	if fn == nil || fn.Blocks == nil {
+		return false
+	}
+	n := 0
+	ok := true
+	eachInstr(fn, func(in ssa.Instruction) {
+		ret, isRet := in.(*ssa.Return)
+		if !isRet || len(ret.Results) == 0 {
+			return
+		}
+		n++
+		for _, o := range origins(ret.Results[0], originOpts{}) {
+			switch o.Kind {
+			case "const":
+			case "alloc":
+				if al, isAl := o.Val.(*ssa.Alloc); !isAl || al.Parent() != fn {
+					ok = false
+				}
+			default:
+				ok = false
+			}
+		}
+	})
+	return ok && n > 0
 }
